@@ -216,7 +216,7 @@ class Parser:
         return ('if', c, th, el)
 
     # ---- expressions (precedence climbing)
-    PREC = {'||': 1, '&&': 2, '==': 3, '!=': 3, '>>': 5, '<<': 5, '+': 6, '-': 6, '*': 7}
+    PREC = {'||': 1, '&&': 2, '==': 3, '!=': 3, '&': 4, '>>': 5, '<<': 5, '+': 6, '-': 6, '*': 7, '/': 7}
 
     def expr(self, minp=0, nostruct=False):
         lhs = self.unary(nostruct)
@@ -224,7 +224,7 @@ class Parser:
             op = self.peek()[1]
             if self.peek()[0] != 'op' or op not in self.PREC:
                 break
-            if op in '+-*' and self.at('=', 1):
+            if op in ('+', '-', '*', '&') and self.at('=', 1):
                 break
             p = self.PREC[op]
             if p <= minp:
@@ -371,6 +371,9 @@ class Parser:
             elif self.at('?'):
                 self.eat('?')
                 e = ('try', e)
+            elif self.at('as') and self.peek()[0] == 'id':
+                self.eat('as')
+                self.eat()                      # the target type: integer width changes are the identity on the modelled value
             else:
                 return e
 
@@ -415,6 +418,7 @@ class Sym:
         self.n = {}
         self.depth = 0
         self.repo = None
+        self.ckinds = {}
 
     def method_helper(self, name, nargs):
         """a helper *method* `fn name(self | &self, a: T, …) { lets; tail }` defined once under src/: (params incl. self, body)"""
@@ -499,6 +503,8 @@ class Sym:
             c = self.consts[name]
             if isinstance(c, tuple):             # a `Lazy` static whose initialiser is an expression: inline it
                 return self.ev(c[1], {})
+            if self.ckinds.get(name) == 'int':
+                return ('(litNat %s)' % c, 'int')
             return ('(fqLit %s)' % c, 'fq')
         raise Untranslatable('unknown name %s' % name)
 
@@ -876,6 +882,8 @@ class Sym:
                 if rest:
                     raise Untranslatable('code after a diverging if/else')
                 return ('%sif %s then\n' % (ind, c) + self.run(th, env, ind + '  ') + '\n%selse\n' % ind + self.run(el, env, ind + '  '))
+            if el is not None and not rest and th and el and th[-1][0] == 'expr' and not th[-1][2] and el[-1][0] == 'expr' and not el[-1][2]:
+                return ('%sif %s then\n' % (ind, c) + self.run(th, env, ind + '  ') + '\n%selse\n' % ind + self.run(el, env, ind + '  '))
             a1 = self.assigned(th)
             a2 = self.assigned(el or [])
             if a1 is None or a2 is None:
@@ -1136,6 +1144,126 @@ class GSym(Sym):
         return '%s(%s, %s)' % (pre, sat, outs)
 
 
+class SarkSym(Sym):
+    """the table-driven `sqrt_ratio_zeta` of src/ark_curve/invsqrt.rs (its straight-line main routine).  Values: field
+    elements, u64 counters as naturals (`& 0xFF` = `% 256`, `>> k` = `/ 2^k`, `<< k` = `* 2^k`; no wrap-around is modelled:
+    every counter stays below 2^48), exponents as naturals.  The tables enter by their contract with Model/Sqrt.lean:
+    `SQRT_LOOKUP_TABLES.gK[i]` is `gtab K i`, `s_lookup[&x]` is `sLookup x` (a miss is the panic = `none`),
+    `nonsquare_lookup` is read from the array literal in `SquareRootTables::new`."""
+
+    def ev(self, e, env):
+        k = e[0]
+        if k == 'num':
+            return (str(e[1]), 'int')
+        if k == 'un' and e[1] in ('&', '*'):
+            return self.ev(e[2], env)
+        if k == 'bin':
+            op = e[1]
+            a, ta = self.ev(e[2], env)
+            b, tb = self.ev(e[3], env)
+            ints = ('int', 'u64')
+            if op == '/' and ta == tb == 'fq':
+                return ('(fmul q %s (finv q %s))' % (a, b), 'fq')       # `Div` = multiplication by the inverse (unwrap: den != 0 here)
+            if ta in ints and tb in ints:
+                if op == '&' and b in ('255', '1'):
+                    return ('(%s %% %d)' % (a, int(b) + 1), 'u64')
+                if op == '>>':
+                    return ('(%s / 2 ^ %s)' % (a, b), 'u64')
+                if op == '<<':
+                    return ('(%s * 2 ^ %s)' % (a, b), 'u64')
+                if op in ('+', '-', '*'):
+                    return ('(%s %s %s)' % (a, op, b), 'u64')
+                if op == '==':
+                    return ('(%s == %s)' % (a, b), 'bool')
+                raise Untranslatable('integer operator %s' % op)
+            return super().ev(e, env)
+        if k == 'method':
+            name, args = e[2], e[3]
+            a, t = self.ev(e[1], env)
+            av = [self.ev(x, env) for x in args]
+            if t == 'fq' and name == 'is_zero' and not av:
+                return ('(%s == 0)' % a, 'bool')
+            if t == 'fq' and name == 'pow_le_limbs' and [x[1] for x in av] == ['limbs']:
+                return ('(powLeLimbs q %s %s)' % (a, av[0][0]), 'fq')      # the loop is the hand-written fold (correspondence)
+            if t == 'fq' and name == 'our_sqrt' and not av:
+                return ('(ourSqrt %s)' % a, 'fq')                          # constant-time Tonelli-Shanks loop: hand-written
+            if t == 'fq' and name == 'pow' and [x[1] for x in av] in (['int'], ['u64']):
+                return ('(powMod %s %s q)' % (a, av[0][0]), 'fq')
+            if t in ('int', 'u64') and name == 'pow' and len(av) == 1 and av[0][1] in ('int', 'u64'):
+                return ('(%s ^ %s)' % (a, av[0][0]), 'int')
+            if t in ('int', 'u64') and name == 'into' and not av:
+                return (a, t)
+            return super().ev(e, env)
+        if k == 'field':
+            if e[1] == ('path', 'SQRT_LOOKUP_TABLES'):
+                return (e[2], 'table')
+            return super().ev(e, env)
+        if k == 'path' and re.fullmatch(r'(Fq|Self)::[A-Z0-9_]+_LIMBS', e[1]):
+            return ('Gen.fields_fq.Fq.%s.nats' % e[1].split('::')[1], 'limbs')
+        if k == 'path' and e[1] in ('Self::ONE', 'Self::ZERO'):
+            return ('1' if e[1].endswith('ONE') else '0', 'fq')
+        if k == 'index':
+            a, t = self.ev(e[1], env)
+            i, ti = self.ev(e[2], env)
+            if t == 'table':
+                m = re.fullmatch(r'g(\d+)', a)
+                if m and ti in ('u64', 'int'):
+                    return ('(gtab %s %s)' % (m.group(1), i), 'fq')
+                if a == 's_lookup' and ti == 'fq':
+                    return (i, 'lookup')
+                if a == 'nonsquare_lookup' and ti in ('u64', 'int'):
+                    x0, x1 = self.nonsquare()
+                    return ('(if %s == 0 then %s else %s)' % (i, x0, x1), 'fq')
+            raise Untranslatable('index of %s' % t)
+        if k == 'tuple':
+            return ([self.ev(x, env) for x in e[1]], 'tuple')
+        return super().ev(e, env)
+
+    def nonsquare(self):
+        src = open(os.path.join(self.repo, self.cfg['file'])).read()
+        m = re.search(r'let\s+nonsquare_lookup\s*=\s*\[([^\]]*)\]\s*;', src)
+        if not m:
+            raise Untranslatable('nonsquare_lookup literal not found')
+        parts = [x.strip() for x in m.group(1).split(',') if x.strip()]
+        if len(parts) != 2:
+            raise Untranslatable('nonsquare_lookup shape')
+        vals = []
+        for x in parts:
+            v, t = self.ev(Parser(tokenize(x)).expr(), {})
+            if t != 'fq':
+                raise Untranslatable('nonsquare_lookup entry')
+            vals.append(v)
+        return vals
+
+    def bind(self, name, val, env, ind):
+        lean, t = val
+        if t in ('u64', 'int'):
+            n = self.fresh(name)
+            env[name] = (n, 'u64')
+            return '%slet %s := %s\n' % (ind, n, lean)
+        return super().bind(name, val, env, ind)
+
+    def run(self, stmts, env, ind='  ', tail=True):
+        if stmts and stmts[0][0] == 'let' and stmts[0][2] is not None and stmts[0][1][0] == 'pname':
+            v, t = self.ev(stmts[0][2], env)
+            if t == 'lookup':
+                env = dict(env)
+                n = self.fresh(stmts[0][1][1])
+                env[stmts[0][1][1]] = (n, 'u64')
+                # `Option.bind`, not `match`: both sides of the equality proof then have the same shape, and the kernel never
+                # has to compare two stuck matches with different discriminants (it would evaluate the table to do so)
+                return ('%s(sLookup %s).bind fun %s =>\n' % (ind, v, n) + self.run(stmts[1:], env, ind + '  '))
+        return super().run(stmts, env, ind)
+
+    def run_assigns(self, stmts, env):
+        return super().run_assigns(stmts, env)
+
+    def ret(self, v, t):
+        if t == 'tuple' and [x[1] for x in v] == ['bool', 'fq']:
+            return 'some (%s, %s)' % (v[0][0], v[1][0])
+        raise Untranslatable('result of type %s' % t)
+
+
 # ---------------------------------------------------------------------------------------------- targets
 
 EXT1 = (('X', 'Y', 'Z', 'T'), 'ext')
@@ -1185,6 +1313,10 @@ TARGETS = [
     dict(name='ark_encode_to_curve', file='src/ark_curve/elligator.rs', impl=r'impl\s+Element\s*\{', fn='encode_to_curve', mode='option', ret='ext',
          params='(sr : SR) (r0 : Nat)', env={'r': ('r0', 'fq')}, new_order=None, calls={'elligator_map': ('ark_elligator', ['fq'])},
          fallback='elligator sr ZETA r0', lean_ret='Option Ext'),
+    dict(name='ark_sqrt_ratio_zeta', file='src/ark_curve/invsqrt.rs', impl=r'impl\s+Fq\s*\{', fn='sqrt_ratio_zeta', sark=True, mode='option', ret='tuple',
+         params='(num den : Nat)', env={'num': ('num', 'fq'), 'den': ('den', 'fq')}, new_order=None, fallback='sqrtRatioArk num den', lean_ret='Option (Bool × Nat)'),
+    dict(name='min_sqrt_ratio_zeta', file='src/min_curve/invsqrt.rs', impl=r'impl\s+Fq\s*\{', fn='non_arkworks_sqrt_ratio_zeta', sark=True, mode='option', ret='tuple',
+         params='(num den : Nat)', env={'num': ('num', 'fq'), 'den': ('den', 'fq')}, new_order=None, fallback='sqrtRatioMin num den', lean_ret='Option (Bool × Nat)'),
     dict(name='r1cs_compress', file='src/ark_curve/r1cs/inner.rs', impl=r'impl\s+ElementVar\s*\{', fn='compress_to_field', gadget=True, mode='pure', ret='fq',
          params='(x y : Nat) (h : R1cs.Hint)', env={'self': (('x', 'y'), 'pair')}, new_order=None, fallback='R1cs.compress x y h', lean_ret='Bool × Nat'),
     dict(name='r1cs_decompress', file='src/ark_curve/r1cs/inner.rs', impl=r'impl\s+ElementVar\s*\{', fn='decompress_from_field', gadget=True, mode='pure', ret='pair',
@@ -1231,6 +1363,23 @@ def const_table(repo, rel, index):
     return tab
 
 
+INDEX_PATH = ['']
+
+
+def const_kinds(constants_lean):
+    """NAME -> 'int' for constants of an integer / big-integer Rust type (read off the doc comments the constant translator writes)"""
+    kinds = {}
+    try:
+        for m in re.finditer(r'/-- (\S+) : (\S+) : (\w+) : ([^\n]*?) -/', open(constants_lean).read()):
+            ty = m.group(4)
+            if 'Fq' not in ty and 'Fr' not in ty and 'Fp' not in ty and re.search(r'\bu(8|16|32|64|128|size)\b|BigInteger', ty):
+                if m.group(1).startswith('src/ark_curve/constants') or m.group(1).startswith('src/min_curve/constants'):
+                    kinds[m.group(3)] = 'int'
+    except OSError:
+        pass
+    return kinds
+
+
 def translate(repo, cfg, index):
     path = os.path.join(repo, cfg['file'])
     src = open(path).read()
@@ -1238,8 +1387,9 @@ def translate(repo, cfg, index):
     info = dict(file=cfg['file'], fn=cfg['fn'], lines=[l0, l1], sha256=hashlib.sha256(text.encode()).hexdigest())
     p = Parser(tokenize(text))
     stmts = p.block()
-    sym = (GSym if cfg.get('gadget') else Sym)(cfg, const_table(repo, cfg['file'], index))
+    sym = (GSym if cfg.get('gadget') else SarkSym if cfg.get('sark') else Sym)(cfg, const_table(repo, cfg['file'], index))
     sym.repo = repo
+    sym.ckinds = const_kinds(os.path.join(os.path.dirname(INDEX_PATH[0]), 'Constants.lean'))
     body = sym.run(stmts, dict(cfg['env']))
     return body, info
 
@@ -1247,8 +1397,11 @@ def translate(repo, cfg, index):
 def main():
     repo, out = sys.argv[1], sys.argv[2]
     index = json.load(open(os.path.join(os.path.dirname(out), 'Constants.index.json')))
+    INDEX_PATH[0] = os.path.join(os.path.dirname(out), 'Constants.index.json')
     parts = ['/- GENERATED by translator/extract_formulas.py from the Rust sources of the repository; do not edit. -/',
-             'import Decaf.Model.R1cs', '', 'namespace Gen.Formulas', 'open Model', '']
+             'import Decaf.Model.R1cs', '', 'namespace Gen.Formulas', 'open Model', '',
+             '/-- an integer / big-integer constant of the sources as a natural number -/',
+             'def litNat : Lit → Nat', '  | .nat n => n', '  | .dec n => n', '  | _ => 0', '']
     report = {}
     for cfg in TARGETS:
         info = dict(file=cfg['file'], fn=cfg['fn'])
